@@ -31,6 +31,8 @@ def check(chk, thorough=False):
     chk.run('C01.n', 'R-NOPATH', 'a message that is still arriving is waited for: the partial arm of the receive loop leaves buffer, state and connection alone (= C07.a)', lambda ob: __import__('sa.props.c07', fromlist=['c07a']).c07a(tree, ob), floor=4)
     chk.run('C01.i', 'R-GUARD', 'back-pressure is not taken for a dead connection: a send that would block keeps the octets and the connection', lambda ob: c01i(tree, ob), floor=2)
     chk.run('C01.g', 'R-WHO', 'the active-transfer state of each direction is written only by its own setup / teardown / pump functions', lambda ob: c01g(tree, ob), floor=6)
+    chk.run('C01.o', 'R-ESCAPE', 'no exception escapes the handlers of the receive callback: a KeyError / ValueError out of the acknowledgement handler ends reception, later bundles are never received (= C17.a)', lambda ob: __import__('sa.props.c17', fromlist=['c17a']).c17a(tree, ob), floor=6)
+    chk.run('C01.p', 'R-GUARD', 'the TX step is scheduled whenever a bundle is queued, whatever the session state (the step itself waits for the session): a bundle queued while negotiating is sent once the session is up', lambda ob: __import__('sa.props.common', fromlist=['tx_trigger_whenever_nonempty']).tx_trigger_whenever_nonempty(tree, ob, 'tcpcl/session.py', 'ContactHandler._process_queue_trigger', 'self._tx_pend_start', 'self._process_queue', allowed=(('self._process_queue_pend is None', True), ('self._process_queue_pend is not None', False), ('self._process_queue_pend', False))), floor=1)
     chk.run('C01.h', 'R-SCHEMA', 'segment data and extension lengths are verified against what was read, also when empty (= C07.c)', lambda ob: _c07c(tree, ob), floor=6)
 
 
